@@ -45,7 +45,7 @@ theorem gen_fallback (mode : String) (b : Int) :
     (fallbackCond mode b = true ↔ (mode = "direct" ∧ b = chromeId)) ∧ fallbackBrowser b = firefoxId ∧
     chromeId ≠ firefoxId ∧ chromeId ≠ safariId ∧ firefoxId ≠ safariId := by
   refine ⟨?_, ?_, by decide, by decide, by decide⟩
-  · simp [fallbackCond, chromeId]
+  · constructor <;> intro h <;> simp_all [fallbackCond, chromeId]
   · simp [fallbackBrowser, firefoxId]
 
 /-- OBLIGATION: where the session configuration comes from -/
